@@ -67,6 +67,13 @@ Theorem C11_needs_acyclic_actions_refuted :
 Proof. exact change_action_cycle_refutes. Qed.
 Print Assumptions C11_needs_acyclic_actions_refuted.
 
+(* ... and without table_wf: star< uint<0-width>::any > has 0 problems and never terminates (not expressible in C++) *)
+Theorem C11_needs_table_wf_refuted :
+  exists G C, table_shape_ok G = true /\ cfg_plain_actions C /\ problems G = 0 /\
+              exists d r c, forall f, eval G C f d r c = Oof.
+Proof. exact zero_width_refutes. Qed.
+Print Assumptions C11_needs_table_wf_refuted.
+
 (* the hypotheses are satisfiable: a recursive grammar with sor / seq / plus / star / opt / if_must / until / if_apply,
    recursion behind consuming prefixes *)
 Example C11_example_hypotheses :
